@@ -35,19 +35,25 @@ def _setup_imports():
         "code under test not imported from VERIF_REPO",
         codemodder.__file__,
     )
-    # warm up: import every submodule so that no lazy import happens under the scheduler
+    # warm up: import every submodule so that no lazy import happens under the scheduler.
+    # (pkgutil.walk_packages is not used: it imports codemodder.codemods.test, whose import is not
+    # heap-deterministic - pytest/mock machinery - which broke replay of id()-dependent behaviour)
     import importlib
-    import pkgutil
 
+    names = []
     for pkgname in ("codemodder", "core_codemods"):
-        pkg = importlib.import_module(pkgname)
-        for m in pkgutil.walk_packages(pkg.__path__, pkgname + "."):
-            if ".scripts" in m.name or ".test" in m.name:
-                continue
-            try:
-                importlib.import_module(m.name)
-            except Exception:
-                pass
+        base = os.path.join(REPO_SRC, pkgname)
+        for dp, dn, fn in os.walk(base):
+            dn[:] = sorted(d for d in dn if d not in ("test", "scripts", "__pycache__", "docs"))
+            rel = os.path.relpath(dp, REPO_SRC).replace(os.sep, ".")
+            for n in sorted(fn):
+                if n.endswith(".py") and n != "__main__.py":
+                    names.append(rel if n == "__init__.py" else f"{rel}.{n[:-3]}")
+    for name in names:
+        try:
+            importlib.import_module(name)
+        except Exception:
+            pass
     from codemodder import registry
 
     reg = registry.load_registered_codemods()
@@ -66,88 +72,80 @@ def _setup_imports():
     plugins.install(registry)
 
 
+def _read_line(fd):
+    buf = bytearray()
+    while True:
+        b = os.read(fd, 1)
+        if not b:
+            return None
+        if b == b"\n":
+            return bytes(buf)
+        buf += b
+
+
+def _child(rfd, wfd):
+    """one execution; reads its own job so that the zygote's heap never depends on job data"""
+    line = _read_line(rfd)
+    if line is None:
+        os._exit(99)  # coordinator closed the channel
+    code = 70
+    try:
+        job = json.loads(line.decode("utf-8"))
+        if job.get("quit"):
+            os._exit(99)
+        from simbox import runner
+        from simbox.seams import real_open
+
+        spec_path = job["spec_path"]
+        out_path = spec_path + ".out"
+        faulthandler.enable(file=sys.__stderr__)
+        faulthandler.dump_traceback_later(EXEC_WALL_S + 20, exit=True, file=sys.__stderr__)
+        with real_open(spec_path, "r", encoding="utf-8") as f:
+            spec = json.load(f)
+        outcome = runner.run_execution(spec, REPO_SRC, SHM)
+        with real_open(out_path + ".tmp", "w", encoding="utf-8") as f:
+            json.dump(outcome, f)
+        os.replace(out_path + ".tmp", out_path)
+        os.write(wfd, (json.dumps({"ok": True, "outcome_path": out_path}) + "\n").encode())
+        code = 0
+    except BaseException:
+        try:
+            os.write(wfd, (json.dumps({"ok": False, "kind": "harness-error", "error": traceback.format_exc()[-4000:]}) + "\n").encode())
+            code = 71
+        except BaseException:
+            pass
+    finally:
+        os._exit(code)
+
+
 def main():
     rfd, wfd = int(sys.argv[1]), int(sys.argv[2])
-    rin = os.fdopen(rfd, "r", encoding="utf-8")
-    wout = os.fdopen(wfd, "w", encoding="utf-8")
     try:
         _setup_imports()
     except BaseException:
-        wout.write(json.dumps({"ready": False, "error": traceback.format_exc()}) + "\n")
-        wout.flush()
+        os.write(wfd, (json.dumps({"ready": False, "error": traceback.format_exc()}) + "\n").encode())
         return 3
-    wout.write(json.dumps({"ready": True, "hashseed": os.environ.get("PYTHONHASHSEED")}) + "\n")
-    wout.flush()
-    from simbox import runner
-
-    n = 0
-    for line in rin:
-        line = line.strip()
-        if not line:
-            continue
-        job = json.loads(line)
-        if job.get("quit"):
-            break
-        n += 1
-        spec_path = job["spec_path"]
-        out_path = spec_path + ".out"
+    # warm-up forks: bring the parent's allocator into its steady state, so that every later child
+    # starts from the same heap (id()-dependent behaviour of the code under test then replays)
+    for _ in range(3):
         pid = os.fork()
         if pid == 0:
-            # child: one execution
-            code = 0
-            try:
-                rin.close()
-                faulthandler.enable(file=sys.__stderr__)
-                faulthandler.dump_traceback_later(EXEC_WALL_S - 5, exit=True, file=sys.__stderr__)
-                with open(spec_path, "r", encoding="utf-8") as f:
-                    spec = json.load(f)
-                outcome = runner.run_execution(spec, REPO_SRC, SHM)
-                from simbox.seams import real_open
-
-                with real_open(out_path + ".tmp", "w", encoding="utf-8") as f:
-                    json.dump(outcome, f)
-                os.replace(out_path + ".tmp", out_path)
-            except BaseException:
-                code = 70
-                try:
-                    from simbox.seams import real_open
-
-                    with real_open(out_path + ".err", "w", encoding="utf-8") as f:
-                        f.write(traceback.format_exc())
-                except BaseException:
-                    pass
-            finally:
-                os._exit(code)
-        # parent
-        deadline = time.monotonic() + EXEC_WALL_S
-        status = None
-        while True:
-            wpid, st = os.waitpid(pid, os.WNOHANG)
-            if wpid == pid:
-                status = st
-                break
-            if time.monotonic() > deadline:
-                try:
-                    os.kill(pid, signal.SIGKILL)
-                except OSError:
-                    pass
-                os.waitpid(pid, 0)
-                status = -1
-                break
-            time.sleep(0.002)
-        if status == 0 and os.path.exists(out_path):
-            wout.write(json.dumps({"ok": True, "outcome_path": out_path}) + "\n")
-        else:
-            err = ""
-            try:
-                with open(out_path + ".err") as f:
-                    err = f.read()
-                os.unlink(out_path + ".err")
-            except OSError:
-                pass
-            kind = "timeout" if status == -1 else "harness-error"
-            wout.write(json.dumps({"ok": False, "kind": kind, "status": status, "error": err[-4000:]}) + "\n")
-        wout.flush()
+            os._exit(0)
+        os.waitpid(pid, 0)
+    os.write(wfd, (json.dumps({"ready": True, "hashseed": os.environ.get("PYTHONHASHSEED")}) + "\n").encode())
+    while True:
+        pid = os.fork()
+        if pid == 0:
+            _child(rfd, wfd)
+        _, st = os.waitpid(pid, 0)
+        if st == 0:
+            continue
+        code = os.waitstatus_to_exitcode(st)
+        if code == 99:
+            break
+        if code != 71:
+            os.write(wfd, (json.dumps({"ok": False, "kind": "harness-error", "status": code,
+                                       "error": "execution child died without a reply"}) + "\n").encode())
     return 0
 
 
